@@ -58,6 +58,24 @@ theorem MSpec.wrapErr {env : Env} {α : Type} {e : WErr} {pos : Span} {pre : Nod
 theorem HasPosIn.mk {S : Span → Prop} {pos : Span} (h : S pos) (k : ErrKind) (what : String) :
     HasPosIn S ⟨some pos, k, what⟩ := ⟨pos, rfl, h⟩
 
+/-! ## A necessary hypothesis on the statements
+
+`walkSchema` DOES panic on a block whose type reference has no ident (`buildScope … .resetScope` with an
+empty path returns `tailScope`, whose `root` is `none`; a description statement in the body then
+dereferences it — `WalkCex.lean`). The parser never builds such a reference (`newReference`). -/
+
+mutual
+/-- every block type reference of the statement has at least one ident -/
+def statementTypesOK : Statement → Bool
+  | .block h body => !h.type.idents.isEmpty && bodyTypesOK body
+  | .assign _ => true
+  | .desc _ => true
+/-- every block type reference of the body has at least one ident -/
+def bodyTypesOK : List Statement → Bool
+  | [] => true
+  | s :: rest => statementTypesOK s && bodyTypesOK rest
+end
+
 /-! ## `walkScope` (raw style) -/
 
 /-- `walkScope`: the scope reached is valid; after at least one step it is a one-block scope with a
@@ -87,7 +105,7 @@ theorem walkScope_spec {env : Env} (hwf : env.WF = true) (S : Span → Prop) :
       have := ih next (fun el hel => hS el (List.mem_cons_of_mem _ hel)) st1 ht1 hsc1
       refine this.imp ?_ (fun _ h => h)
       rintro sc st' ⟨h1, h2, h3, h4, h5⟩
-      refine ⟨h1, he1.trans h2, h3, fun h => by cases h, fun _ => ?_⟩
+      refine ⟨h1, he1.trans h2, h3, fun h => (by cases h), fun _ => ?_⟩
       by_cases hrest : rest = []
       · rw [h4 hrest]; exact hnew
       · exact h5 hrest
@@ -134,14 +152,14 @@ theorem buildScope_spec {env : Env} (hwf : env.WF = true) (S : Span → Prop) (s
     cases flag with
     | keepScope => exact MSpec.pure (fun _ _ h => ⟨h, fun _ => rfl, fun h => by cases h⟩)
     | resetScope =>
-      exact MSpec.pure (fun _ _ h => ⟨h.tailScope, fun h => by cases h, fun _ hne => absurd hempty' hne⟩)
+      exact MSpec.pure (fun _ _ h => ⟨h.tailScope, fun h => (by cases h), fun _ hne => absurd hempty' hne⟩)
   · intro hne
     have hne' : combinePath schemaPath userPath ≠ [] := by simpa using hne
     apply MSpec.bind (walkScope_spec hwf S _ sc (combinePath_positions hS))
     intro container st0
     cases flag with
     | resetScope =>
-      exact MSpec.pure (fun _ _ h => ⟨h.2.2.2.1, fun h => by cases h, fun _ _ => h.2.2.2.2.2 hne'⟩)
+      exact MSpec.pure (fun _ _ h => ⟨h.2.2.2.1, fun h => (by cases h), fun _ _ => h.2.2.2.2.2 hne'⟩)
     | keepScope =>
       apply MSpec.pure
       intro st _ h
